@@ -407,6 +407,7 @@ def real_crash_scenario(nVar, k, c, idx=None, dtype=np.float64):
         res['nF'] = g.nFields
         res.update(old_ok=False, nF2=-1, new_ok=False, old_ok2=False, times_ok=False, size_ok=False)
         res['old_ok'] = all(g.readField(j)[0] == recs[j][0] and np.array_equal(g.readField(j)[1], recs[j][1]) for j in range(k))
+        res['times_crash_ok'] = list(g.times) == [r[0] for r in recs[:k]] and all(g.time(j) == recs[j][0] for j in range(k))  # the torn record is not reported
         if idx is not None:
             try:
                 t, u = g.readField(idx)
@@ -429,7 +430,7 @@ def real_crash_scenario(nVar, k, c, idx=None, dtype=np.float64):
     except Exception as e:
         res['exception'] = f'{type(e).__name__}: {e}'
         res.setdefault('nF', -1)
-        for key in ('old_ok', 'new_ok', 'old_ok2', 'times_ok', 'size_ok'):
+        for key in ('old_ok', 'new_ok', 'old_ok2', 'times_ok', 'size_ok', 'times_crash_ok'):
             res.setdefault(key, False)
         res.setdefault('nF2', -1)
     finally:
@@ -447,6 +448,8 @@ def judge_real(res, k, idx=None):
         bad.append('nFields-after-crash')
     if not res['old_ok']:
         bad.append('old-records-after-crash')
+    if not res.get('times_crash_ok', True):
+        bad.append('times-after-crash')
     if idx is not None:
         inr = -k <= idx < k
         if res.get('read') == 'returned' and not (inr and res.get('read_ok')):
